@@ -7,9 +7,12 @@
 (*   [cid  |-> cell identity (becomes the cell id in 4.5 notebooks),       *)
 (*    fam  |-> content family (which text the source derives from),        *)
 (*    kind |-> "code" | "markdown" | "raw",                                 *)
-(*    src  |-> 0..4  source variant: 0 family text, 1 small edit (stays    *)
+(*    src  |-> 0..8  source variant: 0 family text, 1 small edit (stays    *)
 (*             "strictly similar"), 2 moderate edit (only approximately    *)
-(*             similar), 3 rewritten (dissimilar), 4 emptied,              *)
+(*             similar), 3 rewritten (dissimilar), 4 emptied, 5 / 6 two    *)
+(*             far-apart lines edited (differently in 5 and 6), 7 a line   *)
+(*             inserted before a line that also gets a character at        *)
+(*             column 0, 8 only that character,                            *)
 (*    outs |-> 0..7  output-list variant (code cells),                     *)
 (*    md   |-> 0..5  cell metadata variant (2..4 share a tags list that    *)
 (*             grows differently; 5 carries the "nbdime-conflicts" record  *)
@@ -131,6 +134,11 @@ Edits(nb) ==
   { <<[a |-> "EditSource", pos |-> i, v |-> v], SetField(i, "src", v)>> :
       i \in 1..n, v \in 0..4 }
   \cup
+  \* fine-grained edits inside lines (first cell only, to keep the state space small): 5 / 6 edit the same two
+  \* far-apart lines differently; 7 inserts a line before the line 8 edits at column 0, and makes that edit too
+  (IF n = 0 THEN {} ELSE
+   { <<[a |-> "EditSource", pos |-> 1, v |-> v], SetField(1, "src", v)>> : v \in 5..8 })
+  \cup
   \* give a cell a new identity (both sides may re-id the same cell differently)
   { <<[a |-> "ReId", pos |-> i, v |-> c], SetField(i, "cid", c)>> : i \in 1..n, c \in fresh }
   \cup
@@ -186,7 +194,7 @@ IsNb(nb) == /\ nb.minor \in 0..5
             /\ nb.nbmd \in 0..4
             /\ \A i \in 1..Len(nb.cells) :
                   /\ nb.cells[i].kind \in {"code", "markdown", "raw"}
-                  /\ nb.cells[i].src \in 0..4 /\ nb.cells[i].outs \in 0..7
+                  /\ nb.cells[i].src \in 0..8 /\ nb.cells[i].outs \in 0..7
                   /\ nb.cells[i].md \in 0..5 /\ nb.cells[i].ec \in 0..2 /\ nb.cells[i].att \in 0..3
 TypeOK == IsNb(base) /\ IsNb(local) /\ IsNb(remote)
 
